@@ -61,7 +61,8 @@ def solve_case(chk, shape, f, want, h, real_t, label):
     chk.count((label, shape, real_t.__name__, h))
     eps = float(np.finfo(real_t).eps)
     n = max(shape)
-    tol = 200 * eps * n * n * max(1.0, np.abs(want).max())
+    # measured on the unchanged solver: error <= 24 eps64 n^2 |u| in double (eigen-decomposition), <= 0.05 eps32 n^2 |u| in single
+    tol = (200 * float(np.finfo(np.float64).eps) + (eps if real_t is np.float32 else 0.0)) * n * n * max(1.0, np.abs(want).max())
     errs = []
     if out.dtype != real_t or np.iscomplexobj(out):
         errs.append(f"solution dtype {out.dtype}")
@@ -104,16 +105,21 @@ def run(chk: core.Check):
             if len(chk.samples) < 2:
                 chk.sample({"shape": e["shape"], "f": e["f"], "expected_solution_times_n": e["sol_times_n"], "n": e["n"]})
     # larger / non-cubic shapes driven by the same construction (u integer, f = A u + c)
-    shapes = [(2, 8), (8, 2), (5, 7), (8, 8), (2, 2, 8), (4, 5, 6), (8, 3, 2)] if quick else \
+    shapes = [(2, 8), (8, 2), (5, 7), (8, 8), (2, 2, 8), (4, 5, 6), (8, 3, 2), (3, 56), (50, 3, 2), (2, 3, 64)] if quick else \
         [(2, 8), (8, 2), (5, 7), (8, 8), (16, 9), (33, 20), (64, 64), (64, 2), (2, 2, 8), (4, 5, 6), (8, 3, 2), (16, 12, 9), (32, 17, 5), (64, 8, 3)]
     for shape in shapes:
         u = rng.integers(-3, 4, shape).astype(float)
+        # plus the smoothest non-constant mode along the longest axis (the eigenvalue closest to the null space)
+        ax = int(np.argmax(shape))
+        sh = [1] * len(shape)
+        sh[ax] = shape[ax]
+        u = u + 3.0 * np.cos(np.pi * (np.arange(shape[ax]) + 0.5) / shape[ax]).reshape(sh)
         c = float(rng.integers(-2, 3))
         f = neumann_A(u, 1.0) + c
         want = u - u.mean()
         for real_t in (np.float64, np.float32):
             for h in (1.0, 2.0**-3):
-                solve_case(chk, shape, f, want, h, real_t, "random")
+                solve_case(chk, shape, f, want, h, real_t, "random+smooth")
     # histories on one solver object: zero right-hand side into a reused solution array, constant right-hand side (pure null-space
     # component: solution must be zero), repeated solve of the same problem (bit-identical)
     for shape in [(4, 6), (3, 4, 5)] + ([] if quick else [(9, 5), (6, 3, 4)]):
@@ -154,7 +160,7 @@ def run(chk: core.Check):
     chk.assumptions += [
         "A is linear: symmetry / energy form / compatibility are checked on all pairs of unit impulses, hence for all real fields; "
         "uniqueness of the zero-mean solution follows from the energy form on the connected grid",
-        "solutions compared within 200 eps n^2 (conditioning of the eigen-decomposition), residual evaluated on the code's output with "
+        "solutions compared within (200 eps64 + eps_t) n^2 |u| (conditioning of the eigen-decomposition in double, storage rounding in single), residual evaluated on the code's output with "
         "an independent edge-padded Laplacian",
         "numpy.linalg.eig / inv and tensordot are exercised, not proved",
     ]
